@@ -588,6 +588,7 @@ def run(chk):
     _modexact_rule(chk)
     _vmnarrow_rule(chk)
     _scanrange_rule(chk)
+    _variadicloop_rule(chk, tu)
     chk.floor("C14-DIV", 8)
     chk.floor("C14-WRAP", 10)
     chk.floor("C14-METHODS", 40)
@@ -632,3 +633,31 @@ def _scanrange_rule(chk):
                           "`%s` is reached for a non-negative input whose magnitude was not compared with INT64_MAX: the text "
                           "9223372036854775808 (2^63) is accepted and becomes INT64_MIN instead of an error" % x.text()[:60])
     chk.floor(rule, 1, len(stores))
+
+
+def _variadicloop_rule(chk, tu):
+    """The arithmetic methods of the boxed integers are variadic: (:mod x a b c) folds the operands from left to right
+    like the function mod does.  `Modulo by zero yields the dividend` is a statement about one step of the fold; a
+    method that returns from inside the operand loop at a zero divisor drops the remaining operands:
+    (:mod (int/u64 7) 0 3) gave 7 where (mod (int/u64 7) 0 3) gives 1."""
+    rule = "C14-VARIADICLOOP"
+    chk.rule(rule, "a variadic integer method leaves its operand loop only by raising: no return from inside the loop over argv")
+    n = 0
+    for fn in tu.funcs.values():
+        if not (fn.name.startswith("cfun_it_") and fn.is_cfun_sig()):
+            continue
+        for lp in [x for x in fn.nodes if x.k == "for"]:
+            cond = lp.kids[1]
+            if cond is None or not any(y.k == "ref" and y.name == "argc" for y in cond.walk()):
+                continue
+            n += 1
+            chk.instance(rule)
+            chk.analysed(fn)
+            rets = [y for y in lp.kids[3].walk() if y.k == "return"]
+            if not rets:
+                chk.ok(rule, "%s: the operand loop runs to the end or raises" % fn.name)
+            else:
+                chk.violation(rule, "inttypes.c", fn.name, "return-in-loop", rets[0].loc,
+                              "%s returns from inside its loop over the operands: the operands after that one are ignored, so the "
+                              "method and the polymorphic function disagree for three or more operands" % fn.name)
+    chk.floor(rule, 10, n)
